@@ -970,6 +970,20 @@ general:
 	}
 	cur := recv
 	for _, i := range index[:len(index)-1] {
+		// keep embedded struct values addressable: walk by location where possible
+		if p, ok := cur.Typ.Underlying().(*types.Pointer); ok && cur.Loc != nil {
+			if stt, ok := p.Elem().Underlying().(*types.Struct); ok {
+				ft := stt.Field(i).Type()
+				if _, fieldIsPtr := ft.Underlying().(*types.Pointer); !fieldIsPtr {
+					if _, fieldIsStruct := ft.Underlying().(*types.Struct); fieldIsStruct {
+						l := *cur.Loc
+						l.Path = append(append([]int{}, cur.Loc.Path...), i)
+						cur = Val{Typ: types.NewPointer(ft), Loc: &l}
+						continue
+					}
+				}
+			}
+		}
 		cur, err = e.fieldOf(cur, i)
 		if err != nil {
 			return Val{}, err
